@@ -5,6 +5,7 @@ from .. import order
 from . import C01, C04
 
 NEED_DEPS = True
+USES_QUERIES = True
 EXPLANATION = (
     "ORDER/TYPE/FLOW rules. C07.1: order independence of assembly reduces to the node constructor sorting by digest and storing the "
     "sorted vector (C01.2 node), idempotent add (C04.3) and inverse remove with collapse (C04.5); those instances are re-evaluated here. "
